@@ -77,6 +77,9 @@ def units(tier, variant):
         out.append(dict(kind='word', word=list(w), variant=variant))
     for w in LONG_WORDS:
         out.append(dict(kind='word', word=list(w), variant=variant))
+    # steep rays on iteratively intersected surfaces (ray slope x surface slope near 1)
+    for fld in (50.0, 60.0, 65.0, 70.0):
+        out.append(dict(kind='steep-iterative', field=fld, variant=variant))
     if variant == 0 or tier == 'quick':
         for name in LZ.sample_lenses():
             out.append(dict(kind='sample', name=name, variant=variant))
@@ -131,7 +134,7 @@ def rows_from_optic(o, w):
     return out
 
 
-def observe(part, o, rows_of_w, fields, waves, where, steep=None):
+def observe(part, o, rows_of_w, fields, waves, where, steep=None, nonfinite_cond=None):
     Px, Py = LZ.fan25()
     n = len(Px)
     for w in waves:
@@ -156,7 +159,10 @@ def observe(part, o, rows_of_w, fields, waves, where, steep=None):
             part.count('fans-reaching-image')
             part.outcome(rec['x'][-1][img_ok][:6], rec['y'][-1][img_ok][:6], rec['opd'][-1][img_ok][:3])
         for v in viols:
-            part.violation(PID, v['clause'], 'Optic.trace_generic', cond_of(rows[v['k']], v),
+            cnd = cond_of(rows[v['k']], v)
+            if nonfinite_cond and v['clause'] == 'exists-but-nonfinite':
+                cnd = nonfinite_cond
+            part.violation(PID, v['clause'], 'Optic.trace_generic', cnd,
                            dict(where=where, wavelength=w, surface=v['k'], ray=v['ray'],
                                 Hy=float(Hy[v['ray']]), Px=float(PX[v['ray']]), Py=float(PY[v['ray']]),
                                 nrays=v.get('nrays')),
@@ -183,6 +189,16 @@ DISTS = [('hexapolar', 3), ('uniform', 5), ('cross', 5), ('line_x', 4), ('line_y
 
 def run_unit(unit):
     part = Part(unit)
+    if unit['kind'] == 'steep-iterative':
+        # a refracting paraboloid written as an even asphere (no polynomial terms), stop on it, EPD of the order of its radius
+        surfs = [S('asph', R=20.0, k=-1.0, coeffs=[0.0, 0.0], mat=['ideal', 1.5, 0.0], t=10.0, stop=True), S('plane', mat='air', t=30.0)]
+        sp = LZ.spec(surfs, obj=LZ.INF, ap=('EPD', 24.0), ftype='angle', fields=(0.0, unit['field']), waves=((0.4861, False), (0.5876, True)))
+        o = LZ.build(sp)
+        part.states += 1
+        observe(part, o, lambda w: prescription.rows(sp, index_of(w)), [1.0, -1.0, 0.5], [0.5876], 'steep-iterative',
+                nonfinite_cond='iterative-surface,ray-slope-x-surface-slope-near-1')
+        part.sample(dict(kind='steep-iterative', field=unit['field']))
+        return part
     if unit['kind'] == 'word':
         sp = make_spec(unit)
         o = LZ.build(sp)
